@@ -82,6 +82,13 @@ def _impl(tier, seed, search):
                 cp = np.asarray(c.p, float); scx = max(sc, float(np.max(np.abs(x))))
                 L.close('closest:on-line', dist_to_line(cp, P, d), 0.0, TOL, scx, dict(inp, x=x)); L.close('closest:orthogonal', float(np.dot(x - cp, uw)), 0.0, TOL, scx, dict(inp, x=x))
                 L.close('closest:distance', float(c.d), dist_to_line(x, P, d), TOL, scx, dict(inp, x=x)); L.close('closest:parameter', pp + float(c.lam) * uw, cp, TOL, scx, dict(inp, x=x))
+            # query points on (or within 1e-7 of) the line, far from the principal point: the reported distance is |x - closest point|
+            for xq, dq in ((P, 0.0), (Q, 0.0), (P + 700.0 * uw, 0.0), (P + float(g.uniform(-50, 50)) * uw + np.cross(uw, inputs.unit_axis(g)) * 1e-7, None)):
+                ok3, c = L.noraise('closest(on line)', lambda: l.closest(xq), dict(inp, x=xq), 'closest(x) for x on the line')
+                if ok3:
+                    scq = max(sc, float(np.max(np.abs(xq)))); cpq = np.asarray(c.p, float)
+                    L.close('closest(on line):distance', float(c.d), float(np.linalg.norm(xq - cpq)), TOL, scq, dict(inp, x=xq), what='closest(x).d is not the distance from x to the returned point', sig='closest:distance')
+                    if dq is not None: L.close('closest(on line):zero', float(c.d), dq, TOL, scq, dict(inp, x=xq), what='closest(x).d is not 0 (relative to the data magnitude) for a point of the line', sig='closest:distance')
         # point-direction constructor
         dd = geom.axis_scaled(g); dd = dd / np.linalg.norm(dd) * 10.0 ** g.uniform(-3, 3)
         ok2, l2 = L.noraise('PointDir', lambda: Plucker.PointDir(P, dd), dict(P=P, dir=dd), 'Plucker.PointDir')
@@ -113,6 +120,12 @@ def _impl(tier, seed, search):
         ok2, c = L.noraise('==', lambda: (l == Plucker(np.r_[v, w] * k), l == Plucker(np.r_[v, w] * -k), l != Plucker(np.r_[v, w] * k)), inp, 'Plucker ==')
         if ok2:
             L.check('==:positive-rescale', bool(c[0]) and not bool(c[2]), inp, 'the same oriented line under positive rescaling does not compare equal'); L.check('==:orientation', not bool(c[1]), inp, 'oppositely oriented line compares equal')
+        # a parallel copy shifted sideways by 1e-4 .. 1e-2 of the data magnitude is a different line
+        sh_ = np.cross(d / np.linalg.norm(d), inputs.unit_axis(g))
+        if np.linalg.norm(sh_) > 0.3:
+            sh_ = sh_ / np.linalg.norm(sh_) * max(sc, 1.0) * 10.0 ** g.uniform(-4, -2)
+            ok2, c = L.noraise('==(shifted)', lambda: (l == Plucker.PQ(P + sh_, Q + sh_), l != Plucker.PQ(P + sh_, Q + sh_)), dict(inp, shift=sh_), 'Plucker == on a shifted parallel copy')
+            if ok2: L.check('==:shifted-copy', (not bool(c[0])) and bool(c[1]), dict(inp, shift=sh_), 'a line and a parallel copy shifted sideways compare equal', sig='==:shifted')
         off = np.cross(d / np.linalg.norm(d), inputs.unit_axis(g)) * float(g.uniform(0.5, 3))
         if np.linalg.norm(off) > 0.1 and sc <= 100:
             lp = Plucker.PQ(P + off, Q + off)
@@ -171,6 +184,14 @@ def _impl(tier, seed, search):
                 ok3, pl = L.noraise('point(lam)', lambda: np.asarray(l.point(c.lam), float).flatten(), pinp, 'point(lam) of the intersection')
                 if ok3: L.close('intersect_plane:parameter', pl, ip, TOL, s2 * max(1.0, 1 / abs(np.dot(npl, d / np.linalg.norm(d)))), pinp, what='point(lam) with the returned line parameter is not the returned intersection point', sig='intersect_plane:parameter')
             elif ok2: L.check('intersect_plane', False, pinp, 'no intersection reported for a plane not parallel to the line', sig='intersect_plane:none')
+            # the same plane given with a normal that is not of unit length (4-vector and PN forms): same point, and point(lam) is that point
+            kn_ = 10.0 ** g.uniform(-1.5, 1.5)
+            for pform, mkp in (('PN(p, k n)', lambda: Plane.PN(p0, npl * kn_)), ('Plane([k n, k d])', lambda: Plane(np.r_[npl * kn_, -kn_ * float(np.dot(npl, p0))]))):
+                ok2, c = L.noraise('intersect_plane(non-unit normal)', lambda: (lambda r_: (np.asarray(r_.p, float), np.asarray(l.point(r_.lam), float).flatten()))(l.intersect_plane(mkp())), dict(pinp, k=kn_, form=pform), 'intersect_plane with a non-unit normal', sig='intersect_plane(non-unit):raises')
+                if ok2:
+                    s2n = max(sc, float(np.max(np.abs(p0)))) * max(1.0, 1 / abs(np.dot(npl, d / np.linalg.norm(d))))
+                    L.close('intersect_plane(non-unit):on-plane', float(np.dot(npl, c[0] - p0)), 0.0, TOL, s2n, dict(pinp, k=kn_, form=pform), sig='intersect_plane:non-unit-normal')
+                    L.close('intersect_plane(non-unit):parameter', c[1], c[0], TOL, s2n, dict(pinp, k=kn_, form=pform), what='point(lam) with the returned parameter is not the intersection point when the plane normal is not of unit length', sig='intersect_plane:non-unit-normal')
             # plane membership of the point it was built from
             ok2, c = L.noraise('Plane.contains', lambda: plane.contains(p0, tol=1e-9 * max(1.0, float(np.max(np.abs(p0))))), pinp, 'Plane.PN(p, n).contains(p)')
             if ok2: L.check('Plane.contains', bool(c), pinp, 'a plane built from a point and a normal does not contain that point', sig='Plane.PN:contains')
